@@ -617,7 +617,10 @@ TRUSTED = [
     "`sdict[names] = f` (returns the dictionary), `format_docstring(...)(f)` returns f, `StrategyDict.__setitem__` / "
     "`__getitem__` / `default` are `SDict.setKeys` / `get` / `default` (modelled, not verified: MultiKeyDict internals), "
     "function attributes are per-object maps; module context: `from X import n` binds n to X.n (one binding per name checked), "
-    "the function is called at module level after the table and templates exist.  Cross-checked on every run: the state the "
+    "the function is called at module level after the table and templates exist; a function object is identified with (row, "
+    "template it was exec'ed from), which is object identity as long as each template is exec'ed at most once per row (true of "
+    "the loop as written; on a mutant that execs window's template twice the interpreter cannot tell the two objects apart).  "
+    "Cross-checked on every run: the state the "
     "interpreter computes from the REGENERATED program and table is compared with the registry, identities and attributes of "
     "the running module (extra_checks `... = regenerated loop`), so the interpreter's reading is tied also on mutated loops",
     "hand-written Lean model ALV/Model/C14.lean (`genStep`, `generated`, `call`): now proved equal to the run of the regenerated "
